@@ -33,6 +33,8 @@ type mapDriver struct {
 
 type modelCounts struct {
 	reads, hit, miss, expired, writes, deletes float64
+	// entries that were already expired when an ExpireAll ran: whether ExpireAll "touches" (and counts) them is open
+	expiredSlack float64
 }
 
 var bg = context.Background()
@@ -347,9 +349,42 @@ func (d *mapDriver) invalidate() {
 func (d *mapDriver) expireAll() {
 	now := time.Now()
 	d.be.ExpireAll(bg)
+
+	// "entries touched by ExpireAll" are counted as expired: every fresh or never-expiring entry is
+	// touched; an entry that had expired before is touched iff it carries the ExpireAll instant now.
+	after := map[string]int64{}
+	_, _ = d.be.Walk(func(k []byte, _ interface{}, exp time.Time) error {
+		after[string(k)] = exp.UnixNano()
+
+		return nil
+	})
+
+	counted := 0
+
+	for k, e := range d.ref.m {
+		a, seen := after[k]
+
+		switch {
+		case e.e != 0 && e.e < now.UnixNano():
+			if !seen {
+				d.cnt.expiredSlack++ // possibly displaced by a colliding key
+				counted++
+			} else if a == now.UnixNano() {
+				counted++
+				d.c.Class("expireall-restamps-expired-entry")
+			}
+		case e.e == now.UnixNano():
+			// expires at this very instant anyway: touched or not cannot be told
+			d.cnt.expiredSlack++
+			counted++
+		default:
+			counted++
+		}
+	}
+
 	n := d.ref.expireAll(now)
-	d.cnt.expired += float64(n)
-	d.c.Tracef("ExpireAll() at %d (%d entries)", now.UnixNano(), n)
+	d.cnt.expired += float64(counted)
+	d.c.Tracef("ExpireAll() at %d (%d entries, %d touched)", now.UnixNano(), n, counted)
 }
 
 func (d *mapDriver) deleteAll() {
